@@ -438,6 +438,7 @@ def c12(rep, tier):
     r_views.run_derived(p, rep)
     r_table.run_truth_table(p, rep)
     r_table.run_date_formats(p, rep)
+    r_table.run_subsec_selector(p, rep)
     rep.analysed["config:all"] = {"bodies": len(p.fns)}
 
 
